@@ -81,6 +81,8 @@ def dyn_cast(e, st, args, I):
 # symbolic fp compare
 _orig_fop = Engine.fop
 def fop2(self, st, op, I, vals):
+    if self.real_mode and (any(is_real(v) for v in vals) or (op in ("uitofp", "sitofp") and is_sym(vals[0]))):
+        return self.fop_real(st, op, I, vals)
     if op == "fcmp" and any(isinstance(v, tuple) or is_sym(v) for v in vals):
         t = I.a and None
         def tofp(v):
@@ -795,6 +797,16 @@ def m_set_trunc(e, st, a, I):
         e.add_pc(st, z3.ULE(st.trunc, len(st.inp)))
 
 
+def m_set_trunc_range(e, st, a, I):
+    m_set_trunc(e, st, a, I)
+    if is_sym(st.trunc):
+        lo, hi = a
+        c = z3.And(z3.UGE(st.trunc, min(lo, len(st.inp))), z3.ULE(st.trunc, min(hi, len(st.inp))))
+        if not e.sat(st, c):
+            raise PathEnd("infeasible")
+        e.add_pc(st, c)
+
+
 def in_cell(e, st, pos):
     """input byte at absolute position pos as seen through the truncation point"""
     return st.inp[pos]
@@ -1197,15 +1209,136 @@ def m_reach2(e, st, a, I):
     e.reach[tag] = e.reach.get(tag, 0) + 1
 
 
+# ---------------- Real mode (C20): sqrt / trig over the reals
+def _rfresh(e, name):
+    e.symcount += 1
+    return z3.Real("%s_%d" % (name, e.symcount))
+
+
+def m_sym_real(e, st, a, I):
+    """sym_real(name): a fresh real number (replay value: a rational written into the replay as numerator/denominator)"""
+    nm = cstr(e, st, a[0])
+    if e.replay is not None:
+        vals = e.replay["values"]
+        k = e.replay.setdefault("_pos", 0)
+        e.replay["_pos"] = k + 1
+        v = vals[k][2] if k < len(vals) else 0
+        return struct.unpack("<f", struct.pack("<I", v & 0xFFFFFFFF))[0]
+    r = _rfresh(e, nm)
+    st.symlog.append((nm, "real", r))
+    return ("real", r)
+
+
+def m_real_sqrt(e, st, a, I):
+    x = a[0]
+    if not is_real(x):
+        return MODELS_SQRT(e, st, a, I)
+    X = x[1]
+    r = _rfresh(e, "sqrt")
+    if not e.sat(st, X >= 0):
+        raise PathEnd("infeasible")
+    e.add_pc(st, z3.And(X >= 0, r >= 0, r * r == X))
+    return ("real", r)
+
+
+def _pi_axiom(e, st):
+    if not st.user.get("_pi"):
+        st.user["_pi"] = True
+        e.add_pc(st, z3.And(REAL_PI > z3.RealVal("3.14159"), REAL_PI < z3.RealVal("3.1416")))
+
+
+def _trig(e, st, ang):
+    """(sin, cos) variables of a real angle expression, one pair per distinct expression, with sin^2+cos^2 = 1"""
+    _pi_axiom(e, st)
+    tab = st.user.get("_trig")
+    tab = dict(tab) if tab else {}
+    k = z3.simplify(ang).get_id()
+    if k not in tab:
+        s_, c_ = _rfresh(e, "sin"), _rfresh(e, "cos")
+        e.add_pc(st, z3.And(s_ * s_ + c_ * c_ == 1, s_ >= -1, s_ <= 1, c_ >= -1, c_ <= 1,
+                            z3.Implies(ang == 0, z3.And(s_ == 0, c_ == 1)),
+                            z3.Implies(z3.And(ang > 0, ang < REAL_PI), s_ > 0),
+                            z3.Implies(z3.And(ang >= 0, ang < REAL_PI / 2), c_ > 0),
+                            z3.Implies(z3.And(ang > REAL_PI / 2, ang <= REAL_PI), c_ < 0)))
+        tab[k] = (ang, s_, c_)
+        st.user["_trig"] = tab
+    return tab[k][1], tab[k][2]
+
+
+REAL_PI = z3.Real("pi")
+
+
+def m_real_cos(e, st, a, I):
+    if not is_real(a[0]):
+        return m_f1(math.cos)(e, st, a, I)
+    return ("real", _trig(e, st, a[0][1])[1])
+
+
+def m_real_sin(e, st, a, I):
+    if not is_real(a[0]):
+        return m_f1(math.sin)(e, st, a, I)
+    return ("real", _trig(e, st, a[0][1])[0])
+
+
+def m_real_asin(e, st, a, I):
+    if not is_real(a[0]):
+        return m_f1(math.asin)(e, st, a, I)
+    y = a[0][1]
+    _pi_axiom(e, st)
+    r = _rfresh(e, "asin")
+    ax = [r >= -REAL_PI / 2, r <= REAL_PI / 2]
+    for (ang, s_, c_) in (st.user.get("_trig") or {}).values():
+        ax.append(z3.Implies(z3.And(y == s_, ang >= -REAL_PI / 2, ang <= REAL_PI / 2), r == ang))
+    e.add_pc(st, z3.And(*ax))
+    return ("real", r)
+
+
+def m_real_acos(e, st, a, I):
+    if not is_real(a[0]):
+        return m_f1(math.acos)(e, st, a, I)
+    y = a[0][1]
+    _pi_axiom(e, st)
+    r = _rfresh(e, "acos")
+    ax = [r >= 0, r <= REAL_PI]
+    for (ang, s_, c_) in (st.user.get("_trig") or {}).values():
+        ax.append(z3.Implies(z3.And(y == c_, ang >= 0, ang <= REAL_PI), r == ang))
+    e.add_pc(st, z3.And(*ax))
+    return ("real", r)
+
+
+def m_real_fabs(e, st, a, I):
+    if not is_real(a[0]):
+        return m_f1(abs)(e, st, a, I)
+    x = a[0][1]
+    return ("real", z3.If(x >= 0, x, -x))
+
+
+def m_real_pi(e, st, a, I):
+    _pi_axiom(e, st)
+    return ("real", REAL_PI)
+
+
+def MODELS_SQRT(e, st, a, I):
+    x = a[0]
+    if isinstance(x, tuple) or is_sym(x):
+        raise PathEnd("unsupported", "symbolic float sqrt")
+    r = math.sqrt(x) if x >= 0 else math.nan
+    return f32round(r) if I.ty[0] == "float" else r
+
+
 ALL = {}
 ALL.update(MODELS)
 ALL.update(M2)
 ALL.update(M3)
 ALL.update({
     "nifly_verif_ref_hook": m_ref_hook, "nifly_verif_str_hook": m_str_hook,
+    "sym_set_truncation_range": m_set_trunc_range,
     "sym_note": m_user_note, "sym_out_truncate": m_out_truncate, "sym_out_read": m_out_read, "sym_out_write": m_out_write,
     "sym_snapshot": m_snapshot, "sym_unchanged": m_unchanged, "sym_reach": m_reach2, "sym_out_clear": m_out_clear,
     "_ZNSo3putEc": m_put,
+    "sym_real": m_sym_real, "sym_pi": m_real_pi,
+    "sqrt": m_real_sqrt, "sqrtf": m_real_sqrt, "cos": m_real_cos, "cosf": m_real_cos, "sin": m_real_sin, "sinf": m_real_sin,
+    "asin": m_real_asin, "asinf": m_real_asin, "acos": m_real_acos, "acosf": m_real_acos,
 })
 
 
@@ -1213,6 +1346,8 @@ def install(e):
     global _ENG
     _ENG = e
     e.models.update(ALL)
+    INTRINSICS["llvm.sqrt"] = m_real_sqrt
+    INTRINSICS["llvm.fabs"] = m_real_fabs
     e.reach = {}
     install_prefix_models(e)
     for nm in e.m.funcs:
